@@ -73,19 +73,18 @@ impl ArrValue {
 
 	pub fn filter(self, filter: NativeFn!((Thunk<Val>) -> bool)) -> Result<Self> {
 		// TODO: ArrValue::Picked(inner, indexes) for large arrays
-		'eager: {
+		if let Some(cheap) = self.iter_cheap() {
+			// Nothing is left to evaluate in the elements, the result can be stored as values
 			let mut out = Vec::new();
-			for i in self.iter() {
-				let Ok(i) = i else {
-					break 'eager;
-				};
+			for i in cheap {
 				if filter.call(IntoUntyped::into_lazy_untyped(i.clone()))? {
 					out.push(i);
 				}
 			}
 			return Ok(Self::eager(out));
-		};
+		}
 
+		// The filter function decides whether an element is evaluated, the kept elements stay lazy
 		let mut out = Vec::new();
 		for i in self.iter_lazy() {
 			if filter.call(i.clone())? {
